@@ -632,6 +632,11 @@ fn leaf_content(apex: &N) -> Vec<Rec> {
         rec(&sub("m.wild", apex), D::Aaaa(Aaaa::from_str("2001:db8::1").unwrap())),
         rec(&sub("*.wc", apex), D::Cname(Cname::new(www.clone()))),
         rec(&sub("m.wc", apex), D::Aaaa(Aaaa::from_str("2001:db8::2").unwrap())),
+        // below the wildcard's parent "wild": an empty non-terminal "e.wild"
+        // (in NSEC order between *.wild and m.wild) and a second, inner
+        // wildcard *.i.wild ("i.wild" is an empty non-terminal, too)
+        a(&sub("x.e.wild", apex), "192.0.2.21"),
+        a(&sub("*.i.wild", apex), "192.0.2.22"),
     ];
     // two delegation points without a child zone in this world: one with a
     // DS RRset (always in the NSEC3 chain) and one without
@@ -1398,14 +1403,11 @@ pub fn apply(w: &World, resp: &mut Resp, st: &AdvStep) {
                     sets.push(p);
                 }
             } else {
-                if let Some(p) = z.cover_proof("nx", &qn) {
-                    sets.push(p);
-                }
-                if z.nsec3.is_some() {
-                    let ce = qn.parent().unwrap().to_name::<Bytes>();
-                    if let Some(p) = z.match_proof("ce", &ce) {
-                        Zone::push_unique(&mut sets, p);
-                    }
+                // the genuine proof that the name does not exist (NSEC: the
+                // covering record; NSEC3: the record covering the next
+                // closer name and the one matching the real closest encloser)
+                for p in z.nx_proofs(&qn).1 {
+                    Zone::push_unique(&mut sets, p);
                 }
             }
             resp.sets = sets;
@@ -1624,6 +1626,7 @@ pub fn question(w: &World, qk: &str, plan: &[AdvStep]) -> (N, Rtype) {
         "wildcard" => (sub("x.wild", leaf), Rtype::A),
         "nodata" => (sub("www", leaf), Rtype::AAAA),
         "wilddeep" => (sub("a.b.wild", leaf), Rtype::A),
+        "wildsub" => (sub("x.i.wild", leaf), Rtype::A),
         "wcname" => (sub("x.wc", leaf), Rtype::A),
         "wcnodata" => (sub("x.wild", leaf), Rtype::AAAA),
         "nxdomain" => (sub("nx", leaf), Rtype::A),
@@ -1639,12 +1642,22 @@ pub fn question(w: &World, qk: &str, plan: &[AdvStep]) -> (N, Rtype) {
 
 /// (name the wildcard is replayed at, the wildcard, its type)
 fn misapply_names(act: &str, leaf: &N) -> (N, N, Rtype) {
-    if act.ends_with("CnameBelow") {
-        (sub("nx.m.wc", leaf), sub("*.wc", leaf), Rtype::CNAME)
-    } else if act.ends_with("At") {
-        (sub("m.wild", leaf), sub("*.wild", leaf), Rtype::A)
-    } else {
-        (sub("nx.m.wild", leaf), sub("*.wild", leaf), Rtype::A)
+    let star = sub("*.wild", leaf);
+    match act.strip_prefix("MisapplyWildcard").unwrap_or("") {
+        "CnameBelow" => (sub("nx.m.wc", leaf), sub("*.wc", leaf), Rtype::CNAME),
+        // an existing name (without the type)
+        "At" => (sub("m.wild", leaf), star, Rtype::A),
+        // below the existing name m.wild (NSEC m.wild -> ...: the closest
+        // encloser comes from the covering record's owner)
+        "Below" => (sub("nx.m.wild", leaf), star, Rtype::A),
+        // below the empty non-terminal e.wild (NSEC *.wild -> x.e.wild: the
+        // closest encloser comes from the covering record's next name)
+        "BelowEnt" => (sub("nx.e.wild", leaf), star, Rtype::A),
+        // two labels below the existing name
+        "BelowDeep" => (sub("a.b.m.wild", leaf), star, Rtype::A),
+        // where the inner wildcard *.i.wild applies
+        "Outer" => (sub("x.i.wild", leaf), star, Rtype::A),
+        other => panic!("MisapplyWildcard variant {}", other),
     }
 }
 
@@ -1760,9 +1773,10 @@ pub struct Outcome {
 
 /// Run one scenario against the real validator.
 ///
-/// `runs` (optional): several validations of the same question on ONE
-/// ValidationContext, each with its own adversary plan; `tps[i]` / `rss[i]`:
-/// before run i time passes (10 s on both clocks) / the zones are re-salted.
+/// `runs` (optional): several validations on ONE ValidationContext, each with
+/// its own adversary plan; `qks[i]` (optional): the query kind of run i (else
+/// the same question every time); `tps[i]` / `rss[i]`: before run i time
+/// passes (10 s on both clocks) / the zones are re-salted.
 pub fn run_scenario(worlds: &mut Worlds, input: &Value, with_conn: bool) -> Outcome {
     let shape = parse_shape(input["shape"].as_str().unwrap_or(""));
     let denial = parse_denial(input["denial"].as_str().unwrap_or(""));
@@ -1805,6 +1819,10 @@ pub fn run_scenario(worlds: &mut Worlds, input: &Value, with_conn: bool) -> Outc
                     sel.fetch_xor(1, std::sync::atomic::Ordering::SeqCst);
                 }
                 *cur.lock().unwrap() = pl.clone();
+                let (qname, qtype) = match input["qks"].as_array().and_then(|a| a.get(i)).and_then(|v| v.as_str()) {
+                    Some(k) => question(&w, k, pl),
+                    None => (qname.clone(), qtype),
+                };
                 let mut msg = user.respond(&qname, qtype);
                 let r = tokio::time::timeout(
                     std::time::Duration::from_secs(10),
